@@ -182,7 +182,9 @@ def scanAr (msg : Bytes) (serverSize : Nat) : Nat → Nat → Nat → Bool → N
             else (.tsig, edns, lim)
       else scanAr msg serverSize n total d.next edns lim
 
-def specScan (cat : List ZoneCfg) (serverSize : Nat) (msg : Bytes) : Scan :=
+/-- the scan, parametric in the catalog lookup (`lookup qname qclass` = the kind of the catalog
+    entry of that class whose name is the longest suffix of `qname`, if any) -/
+def specScanWith (lookup : List UInt8 → Nat → Option ZoneKind) (serverSize : Nat) (msg : Bytes) : Scan :=
   if msg.size < 12 then { respond := false }
   else if (msg.getD 2 0).toNat ≥ 128 then { respond := false }       -- QR set: a response
   else
@@ -215,11 +217,13 @@ def specScan (cat : List ZoneCfg) (serverSize : Nat) (msg : Bytes) : Scan :=
               | some qq =>
                 if 251 ≤ qq.qtype ∧ qq.qtype ≤ 254 then { base with verdict := .notImp }
                 else if qq.qclass = 255 then { base with verdict := .notImp }
-                else match specCatalogLookup cat qq.qname qq.qclass with
+                else match lookup qq.qname qq.qclass with
                   | none => { base with verdict := .refused }
-                  | some z => match z.kind with
-                    | .loaded => { base with verdict := .answer }
-                    | _ => { base with verdict := .servFailZone }
+                  | some .loaded => { base with verdict := .answer }
+                  | some _ => { base with verdict := .servFailZone }
+
+def specScan (cat : List ZoneCfg) (serverSize : Nat) (msg : Bytes) : Scan :=
+  specScanWith (fun qn qc => (specCatalogLookup cat qn qc).map (·.kind)) serverSize msg
 
 /-! ### audits of a response -/
 
